@@ -292,6 +292,7 @@ def run(F, res, tier):
     literal_tables(F, res)
     resolutions_are_not_memoised_by_name(F, res)
     unknowns_are_numbered_by_the_counter(F, res)
+    type_walkers_are_complete(F, res)
     from rules import c05 as _c05
     _c05.lowering_takes_every_child_of_a_list(F, res, rule="Y17")
     _c05.alternatives_bind_one_name_once(F, res, rule="Y17")
@@ -927,3 +928,49 @@ def unknowns_are_numbered_by_the_counter(F, res, rule="Y16"):
     res.ob(rule, "unknown/idx-from-the-counter", "every Ty::Unknown built in the inferencer is numbered by the counter (or by another Unknown, or is the constant "
            "placeholder), never by an index into the variable table", not bad, where="crates/ide/src/ty/infer.rs",
            how="%d constructions" % n if not bad else "; ".join(bad))
+
+
+def type_walkers_are_complete(F, res, rule="Y18"):
+    """Y18: whoever walks a type walks all of it. A function of ide::ty that matches on the kind of a type (the inferencer's Ty over
+    type variables, or the frozen ty::Ty) and lies on a recursive cycle is a walk over types: instantiation (make_type), freezing
+    (Collector), display, and any predicate a later change adds ("is this type closed?"). For every variant that has component
+    types the arm hands each of them back into the cycle. A walker that treats `Adt { params }` as a leaf answers for `Box(a)` as
+    if it were `Box`: a memo of "closed" function types then shares one instance of `fn(Box(a)) -> Int` between two call sites."""
+    import re as _re
+    from rules import c05
+    cg = F.callgraph()
+    ADTS = (("ide::ty::Ty", _re.compile(r"ide::ty::Ty\b")), ("ide::ty::infer::Ty", _re.compile(r"TyVar")))
+    memo = {}
+
+    def reach(a):
+        if a in memo:
+            return memo[a]
+        seen, st = set(), [a]
+        while st:
+            x = st.pop()
+            for y in cg.get(x, ()):
+                if y not in seen and y.startswith(("ide::ty::", "<ide::ty::")):
+                    seen.add(y)
+                    st.append(y)
+        memo[a] = seen
+        return seen
+    n = 0
+    for p_, f in sorted(F.fns.items()):
+        if not p_.startswith(("ide::ty::", "<ide::ty::")) or not f.blocks or "{closure" in p_:
+            continue
+        if f.d.get("span", {}).get("exp"):
+            continue                            # derives
+        r = reach(p_)
+        if p_ not in r:
+            continue
+        d = FL.Defs(f)
+        for adt, cre in ADTS:
+            b0, t = c05.match_on(f, d, adt)
+            if t is None or len(t["targets"]) < 4:
+                continue
+            scc = tuple(sorted(m for m in r if p_ in reach(m))) + (p_,)
+            n += 1
+            short = p_.rsplit("::", 1)[-1]
+            c05.visitor_completeness(F, res, short, "%s/%s" % (short, "Ty" if adt.endswith("::Ty") else adt), rule=rule, fn_path=p_, visits=scc, skips={},
+                                     what="descends into", floor=4, selections=False, adt_path=adt, child_re=cre)
+    res.floor("recursive walkers over types in ide::ty", n, 3)
